@@ -245,6 +245,8 @@ class ApiCtx:
         self.c_i = self.leaf("c_i", g.uniform(0.2, 2.0, (2,)))
         self.e_ij2 = self.leaf("e_ij2", g.uniform(-1.0, 1.0, (2, 3, 2)))
         self.idx_i = self.leaf("idx_i", np.array([2, 0]))
+        self.idx0 = self.leaf("idx0", np.array(2))
+        self.idx0b = self.leaf("idx0b", np.array(5))
         self.trans = self.leaf("trans", g.uniform(-1.0, 0.0, (4, 2, 2)))
         A = g.standard_normal((2, 3, 3))
         P = A @ np.swapaxes(A, -1, -2) + 0.5 * np.eye(3)
@@ -368,7 +370,28 @@ def api_step(name, ctx, env_values):
         lam = f.Lambda(f.Variable("i", f.Bint[2]), a)
         return [lam, lam[1], e[0], f.Lambda(f.Variable("j", f.Bint[3]), e)[2]]
     if name == "stack_cat":
-        return [f.terms.Stack("s", (a, a + 1.0)), f.terms.Cat("j", (a, a)), f.terms.Cat("i", (c, c))]
+        out = [f.terms.Stack("s", (a, a + 1.0)), f.terms.Cat("j", (a, a)), f.terms.Cat("i", (c, c))]
+        # symbolic Cat / Stack / Slice terms indexed by caller-held index arrays (0-d and batched)
+        with f.interpretations.lazy:
+            lcat = f.terms.Cat("j", (a, a + 1.0, a))
+            lstack = f.terms.Stack("s", (a, a + 1.0, c))
+        for term, name_, size in ((lcat, "j", 9), (lstack, "s", 3)):
+            for arr in ((ctx.idx0b if name_ == "j" else ctx.idx0), ctx.idx_i):
+                try:
+                    idx = f.Tensor(arr, OD(i=f.Bint[2]) if arr.ndim else OD(), size)
+                    out.append(term(**{name_: idx}))
+                except Exception:  # noqa
+                    pass
+        for arr in (ctx.idx0, ctx.idx_i):
+            try:
+                idx = f.Tensor(arr, OD(i=f.Bint[2]) if arr.ndim else OD(), 4)
+                out.append(f.terms.Slice("q", 1, 9, 2, 10)(q=idx))
+                with f.interpretations.lazy:
+                    e2 = (f.Variable("q", f.Bint[10]) + 1)(q=f.terms.Slice("q", 1, 9, 2, 10))
+                out.append(e2(q=idx))
+            except Exception:  # noqa
+                pass
+        return out
     if name == "einsum":
         ea, eb = ctx.T(ctx.a_ij, "ab"), ctx.T(ctx.b_jk, "bc")
         return [f.einsum.einsum("ab,bc->ac", ea, eb), f.einsum.einsum("ab,bc->", ea, eb)]
